@@ -64,6 +64,50 @@ def _lower_struct(text, cname, log, subst=()):
     m = re.match(r'\s*(struct|union)\s+(\w+)\s*\{', text)
     kind, name = m.group(1), m.group(2)
     body = text[m.end() - 1:]
+    # member functions / constructors inside the struct are not data: blank them out
+    for f_ in cxx._scan_defs(body, r'(?<![\w:~])[A-Za-z_]\w*(?:\s*==)?', 1, len(body) - 1):
+        pass
+    defs = []
+    for mm in re.finditer(r'(?<![\w:~])(?:operator\s*\S+|[A-Za-z_]\w*)\s*\(', body):
+        p0 = mm.end() - 1
+        try:
+            q0 = cxx.match_bracket(body, p0, '(', ')')
+        except cxx.ExtractError:
+            continue
+        j0 = q0
+        while True:
+            m2 = re.compile(r'\s*(const|noexcept)\b').match(body, j0)
+            if not m2:
+                break
+            j0 = m2.end()
+        m2 = re.compile(r'\s*').match(body, j0)
+        j0 = m2.end()
+        if j0 < len(body) and body[j0] == ':' and body[j0:j0 + 2] != '::':
+            k0 = body.find('{', j0)
+            # skip initialiser items with parentheses
+            k0 = j0 + 1
+            while True:
+                m3 = re.compile(r'\s*\w+\s*\(').match(body, k0)
+                if not m3:
+                    break
+                k0 = cxx.match_bracket(body, m3.end() - 1, '(', ')')
+                m3 = re.compile(r'\s*,').match(body, k0)
+                if m3:
+                    k0 = m3.end()
+            j0 = re.compile(r'\s*').match(body, k0).end()
+        if j0 < len(body) and body[j0] == '{':
+            e0 = cxx.match_bracket(body, j0, '{', '}')
+            s0 = mm.start()
+            while s0 > 1 and body[s0 - 1] not in ';{}':
+                s0 -= 1
+            defs.append((s0, e0))
+    kept = []
+    for s0, e0 in sorted(defs):
+        if kept and s0 < kept[-1][1]:
+            continue          # nested inside an already found definition (initialiser items, calls in bodies)
+        kept.append((s0, e0))
+    for s0, e0 in reversed(kept):
+        body = body[:s0] + ' ' + body[e0:]
     # C++-isms inside header structs
     body = re.sub(r'\bTINS_END_PACK\b|\bTINS_BEGIN_PACK\b|__attribute__\s*\(\(packed\)\)', '', body)
     body = re.sub(r'\b(\w+)::address_size\b', lambda mm: {'IPv6Address': '16', 'IPv4Address': '4'}.get(mm.group(1), mm.group(0)), body)
@@ -181,14 +225,14 @@ def _process_func(u, header_line, lines, mutate=None):
         log.hit('U(pre) %s' % pat, n)
     b, _ = lower.lower_body(pb, cls=cls, methods=methods, members=members if members_extra else (),
                             objs=objs, ptr_objs=ptrobjs, log=log, overloads=overloads)
-    if inits_mode == 'lower' and f.inits:
+    if inits_mode in ('lower', 'lower-all') and f.inits:
         stmts = []
         for item in lower._split_args(f.inits):
             m = re.match(r'([\w:<>]+)\s*\((.*)\)$', item, re.S)
             if not m:
                 raise cxx.ExtractError('cannot lower initialiser: ' + item)
             nm, arg = m.group(1), m.group(2).strip()
-            if nm.endswith('_'):
+            if nm.endswith('_') or inits_mode == 'lower-all':
                 stmts.append('this->%s = %s;' % (nm, arg if arg else '0'))
             else:
                 stmts.append('/* base %s(%s) */' % (nm, arg))
@@ -256,6 +300,10 @@ def _expand(u, text, depth=0, mutate=None):
             t = d.split()
             e = cxx.preprocess(cxx.find_enum(t[1], t[2]))
             cname = t[4] if len(t) > 4 and t[3] == 'as' else t[2]
+            if 'prefix' in t:
+                pre_ = t[t.index('prefix') + 1]
+                hd, tl = e.split('{', 1)
+                e = hd + '{' + re.sub(r'(?<![\w=])([A-Za-z_]\w*)(?=\s*(?:=|,|\}))', lambda mm: pre_ + mm.group(1), tl)
             e = re.sub(r'^enum\s+\w+', 'enum %s_e' % cname, e.strip())
             out.append('typedef %s %s;\n' % (e, cname))
         elif d.startswith('init '):
